@@ -5,7 +5,7 @@
    glob registrations, resources, targets and static trees' label arithmetic are abstracted as
    stated in design.d/C09.md. *)
 From Coq Require Import List NArith Bool.
-From SV Require Import lib.Bytes.
+From SV Require Import lib.Bytes lib.Closure.
 Import ListNotations.
 Open Scope N_scope.
 
@@ -39,6 +39,16 @@ Definition key_eqb (a b : key) : bool := kind_eqb (fst a) (fst b) && str_eqb (sn
 Definition okey_eqb (a b : option key) : bool :=
   match a, b with Some x, Some y => key_eqb x y | None, None => true | _, _ => false end.
 Definition root_key : key := (KRoot, []).
+Definition is_some {A} (o : option A) : bool := match o with Some _ => true | None => false end.
+
+(* node_check_creator_kind_ins / _upd (WORKFLOW_SCHEMA) *)
+Definition creator_kind_ok (child parent : kind) : bool :=
+  match child, parent with
+  | KFile, KStep | KFile, KTree | KFile, KRoot => true
+  | KStep, KStep | KStep, KRoot => true
+  | KTree, KStep => true
+  | _, _ => false
+  end.
 
 Record node := mkNode { nk : key; ncre : option key; ndet : bool }.
 Record frow := mkF { fl : str; fstt : fstate; fh : option N }.
@@ -101,21 +111,14 @@ Definition mem_key (k : key) (l : list key) : bool := existsb (key_eqb k) l.
 Definition mem_str (k : str) (l : list str) : bool := existsb (str_eqb k) l.
 
 (* keys reachable from [seed] by creator -> product edges, in at most [fuel] rounds;
-   fuel = number of nodes suffices (proofs/GraphProofs.v). The seed itself is not included
-   unless reachable. *)
-Fixpoint rec_products_from (fuel : nat) (acc : list key) (s : st) : list key :=
-  match fuel with
-  | O => acc
-  | S fuel' =>
-    let new := filter (fun n => match ncre n with
-                                | Some c => mem_key c acc && negb (mem_key (nk n) acc)
-                                            && negb (key_eqb (nk n) c)
-                                | None => false end) (nodes s) in
-    match new with
-    | [] => acc
-    | _ => rec_products_from fuel' (acc ++ map nk new) s
-    end
-  end.
+   fuel = number of nodes suffices (lib/Closure.v, proofs/GraphClosure.v). The seed itself is
+   not included unless reachable.  The root (its own creator) is not a product of itself. *)
+Definition prod_edges (s : st) : list (key * key) :=
+  flat_map (fun n => match ncre n with
+                     | Some c => if key_eqb (nk n) c then [] else [(c, nk n)]
+                     | None => [] end) (nodes s).
+Definition rec_products_from (fuel : nat) (acc : list key) (s : st) : list key :=
+  closure_from key_eqb (prod_edges s) fuel acc.
 Definition rec_products (k : key) (s : st) : list key :=
   filter (fun x => negb (key_eqb x k)) (rec_products_from (length (nodes s)) [k] s).
 
@@ -136,16 +139,9 @@ Fixpoint nodup_keys (l : list key) : list key :=
   match l with [] => [] | x :: l' => if mem_key x l' then nodup_keys l' else x :: nodup_keys l' end.
 
 (* all (indirect) sinks of the seed, seed included: RECURSE_SINKS *)
-Fixpoint rec_sinks_from (fuel : nat) (acc : list key) (s : st) : list key :=
-  match fuel with
-  | O => acc
-  | S fuel' =>
-    let new := filter (fun d => mem_key (dsrc d) acc && negb (mem_key (dsnk d) acc)) (deps s) in
-    match new with
-    | [] => acc
-    | _ => rec_sinks_from fuel' (acc ++ nodup_keys (map dsnk new)) s
-    end
-  end.
+Definition dep_edges (s : st) : list (key * key) := map (fun d => (dsrc d, dsnk d)) (deps s).
+Definition rec_sinks_from (fuel : nat) (acc : list key) (s : st) : list key :=
+  closure_from key_eqb (dep_edges s) fuel acc.
 Definition rec_sinks (k : key) (s : st) : list key := rec_sinks_from (S (length (deps s))) [k] s.
 
 (* ------------------------------------------------------------------------------------------ *)
@@ -298,6 +294,8 @@ Definition node_reattach (k c : key) (s : st) : res st :=
   match find_node k s, find_node c s with
   | Some n, Some cn =>
     if negb (ndet n) then Internal 108            (* ValueError: only on a detached node *)
+    else if key_eqb c k then Internal 124         (* CHECK (creator != i) *)
+    else if negb (creator_kind_ok (fst k) (fst c)) then Internal 122   (* node_check_creator_kind_upd *)
     else
       let det := ndet cn in
       let s1 := upd_node k (fun n => mkNode (nk n) (Some c) det) s in
@@ -343,8 +341,19 @@ Definition step_initialize_row (l : str) (nd : need) (s : st) : res st :=
 Inductive init_arg := InitFile (f : fstate) | InitStep (n : need) | InitTree.
 
 (* Trellis.create *)
+Definition creator_ok (k : key) (creator : option key) (s : st) : res unit :=
+  match creator with
+  | None => Ok tt
+  | Some c =>
+    if negb (is_some (find_node c s)) then Internal 121        (* creator row not in the database *)
+    else if key_eqb c k then Internal 124                       (* CHECK (creator != i) *)
+    else if negb (creator_kind_ok (fst k) (fst c)) then Internal 122   (* node_check_creator_kind_* *)
+    else Ok tt
+  end.
+
 Definition create (k : key) (creator : option key) (arg : init_arg) (s : st) : res st :=
   let cdet := match creator with None => true | Some c => is_detached c s end in
+  do _ <- creator_ok k creator s;
   do s1 <-
     match find_node k s with
     | Some n =>
@@ -388,27 +397,34 @@ Definition role_of (f : fstate) : option N :=
   | FUndeclared => None
   end.
 
-(* _existing_claim: attached file node with a creator row *)
-Definition existing_claim (l : str) (s : st) : option (N * key) :=
+(* _existing_claim: attached file node with a creator row.  FILE_ROLE_BY_STATE has no entry
+   for UNDECLARED: an attached UNDECLARED file with a creator is a KeyError (Internal 125);
+   the invariant (UNDECLARED implies no creator) excludes it. *)
+Definition existing_claim (l : str) (s : st) : res (option (N * key)) :=
   match find_node (KFile, l) s, find_file l s with
   | Some n, Some r =>
-    if ndet n then None
-    else match ncre n, role_of (fstt r) with
-         | Some c, Some ro => Some (ro, c)
-         | _, _ => None
+    if ndet n then Ok None
+    else match ncre n with
+         | Some c => match role_of (fstt r) with
+                     | Some ro => Ok (Some (ro, c))
+                     | None => Internal 125
+                     end
+         | None => Ok None
          end
-  | _, _ => None
+  | _, _ => Ok None
   end.
 
 (* _check_declaration with a creator NODE: Ok true = new, Ok false = no-op, Usage = collision *)
 Definition check_declaration_node (c : key) (l : str) (role : N) (s : st) : res bool :=
-  match existing_claim l s with
+  do cl <- existing_claim l s;
+  match cl with
   | None => Ok true
   | Some (ro, cr) => if (ro =? role) && key_eqb cr c then Ok false else Usage 202
   end.
 (* ... with a creator phrase (node does not exist yet): any claim collides *)
 Definition check_declaration_phrase (l : str) (s : st) : res bool :=
-  match existing_claim l s with None => Ok true | Some _ => Usage 202 end.
+  do cl <- existing_claim l s;
+  match cl with None => Ok true | Some _ => Usage 202 end.
 
 Definition attached_step_sinks (l : str) (s : st) : list str :=
   filter (fun x => negb (is_detached (KStep, x) s)) (step_sinks_of_file l s).
@@ -427,6 +443,8 @@ Definition declare_file (c : key) (l : str) (f : fstate) (s : st) : res st :=
 
 (* declare_static_files: paths are sorted and duplicate free (done by the harness as sorted(set())) *)
 Definition declare_static_files (c : key) (paths : list str) (s : st) : res st :=
+  if negb (is_some (find_node c s)) then Internal 121   (* the creator must be a node of the graph *)
+  else
   do todo <- foldM (fun acc l => do isnew <- check_declaration_node c l 61 s;
                                  Ok (if isnew then acc ++ [l] else acc)) paths [];
   foldM (fun s l => declare_file c l FUnconfirmed s) todo s.
@@ -527,7 +545,8 @@ Definition define_step_new (creator : key) (label : str) (inp env out vol : list
 (* Workflow.define_step; inp/env/out/vol are sorted and duplicate free *)
 Definition define_step (creator : key) (label : str) (inp env out vol : list str) (nd : need)
            (s : st) : res st :=
-  if key_eqb creator root_key && root_has_step s then Usage 207     (* Boot step already defined *)
+  if negb (is_some (find_node creator s)) then Internal 121          (* creator must be a node *)
+  else if key_eqb creator root_key && root_has_step s then Usage 207 (* Boot step already defined *)
   else
   let k := (KStep, label) in
   match find_node k s with
@@ -548,6 +567,8 @@ Definition define_step (creator : key) (label : str) (inp env out vol : list str
 (* Workflow.amend_step (ran_concurrently is not part of the stored graph) *)
 Definition amend_step (label : str) (inp env out vol : list str) (s : st) : res st :=
   let k := (KStep, label) in
+  if negb (is_some (find_node k s) && is_some (find_step label s)) then Internal 123  (* step must exist *)
+  else
   do s1 <- supply_files label inp false true s;
   let s2 := fold_left (fun s e => add_env label e true false s) env s1 in
   do out' <- foldM (fun acc l => do isnew <- check_declaration_node k l 62 s2;
@@ -613,7 +634,6 @@ Definition handle_deleted_file (l : str) (s : st) : res st :=
            end;
   mark_consumers_pending l s1.
 
-Definition is_some {A} (o : option A) : bool := match o with Some _ => true | None => false end.
 Definition action_eqb (a b : action) : bool :=
   match a, b with AUpdated, AUpdated | ADeleted, ADeleted | ACompleted, ACompleted => true | _, _ => false end.
 
@@ -682,7 +702,8 @@ Definition has_unavailable_dynamic_input (step : str) (s : st) : bool :=
                     | None => false end) (deps s).
 
 Definition mark_completed (step : str) (success wants_defer : bool) (s : st) : res st :=
-  if success then
+  if negb (is_some (find_step step s)) then Internal 120   (* the step must have a row *)
+  else if success then
     do s1 <- set_sstate step SSucceeded false s;
     do s2 <- foldM (fun s l => do s' <- set_fstate l FBuilt s; mark_consumers_pending l s')
                    (file_products_in step is_outdated s1) s1;
@@ -707,12 +728,13 @@ Definition mark_completed (step : str) (success wants_defer : bool) (s : st) : r
     Ok (delete_hash step s3).
 
 Definition hold (step : str) (s : st) : res st :=
+  if negb (is_some (find_step step s)) then Internal 123 else
   Ok (upd_step step (fun r => mkS (sl r) (sst r) (sneed r) (sdef r) (sdc r) (shold r + 1)) s).
 Definition release (step : str) (s : st) : res st :=
   match find_step step s with
   | Some r => if shold r =? 0 then Usage 210
               else Ok (upd_step step (fun r => mkS (sl r) (sst r) (sneed r) (sdef r) (sdc r) (shold r - 1)) s)
-  | None => Usage 210
+  | None => Internal 123
   end.
 
 (* ------------------------------------------------------------------------------------------ *)
